@@ -3,13 +3,12 @@
    rdsparser_parser_update_string), translated on every run (GenMid.v), against the model's
    update_single / string_update / upd_string.  A text buffer of the model (list of cells) is
    seen by the C code as two arrays: the characters and the levels. *)
-Require Export Lemmas_Base Lemmas_Leaf_C06 Model GenMid.
+Require Export Lemmas_MidBase Lemmas_Leaf_C06.
 Require Import ZifyBool.
 Local Open Scope Z_scope.
 
 Definition contents (t : text) : list Z := map ch t.
 Definition levels (t : text) : list Z := map lv t.
-Definition b2z (b : bool) : Z := if b then 1 else 0.
 
 Lemma upd_nth_error_id {A} (l : list A) i x : nth_error l i = Some x -> upd i x l = l.
 Proof.
@@ -29,18 +28,6 @@ Proof.
   intros H. unfold contents, levels. split; apply nth_error_nth; rewrite nth_error_map, H; reflexivity.
 Qed.
 
-(* case analysis on every atomic comparison that occurs *)
-(* ... pruning the branches a decided comparison kills before looking for the next one *)
-Ltac prune := cbn [negb andb orb]; cbv iota.
-Ltac decide_atoms :=
-  prune;
-  repeat match goal with
-         | |- context [?a =? ?b] => destruct (a =? b) eqn:?; prune
-         | |- context [?a <? ?b] => destruct (a <? b) eqn:?; prune
-         | |- context [?a <=? ?b] => destruct (a <=? b) eqn:?; prune
-         | |- context [?a >=? ?b] => destruct (a >=? b) eqn:?; prune
-         | |- context [?a >? ?b] => destruct (a >? b) eqn:?; prune
-         end.
 
 Section Conv.
 Variable conv : Z -> Z.
